@@ -1,6 +1,6 @@
 SPECIFICATION Spec
 CONSTANTS Family = "dst"
  Scope = "quick"
- Emit = FALSE
-INVARIANTS C02_Sem C03_Sem C05_Sem
+ Emit = TRUE
+INVARIANTS EmitInv
 CHECK_DEADLOCK FALSE
